@@ -14,12 +14,13 @@ JOBS = [
     D("w_dimPairDepair", "H_dimPairDepair"),
     D("w_dimUnpackMacro", "H_dimUnpackMacro"),
     D("w_dimPairDecode", "H_dimPairDecode"),
-    D("varintDimensionPairEntryGetUnsigned", "H_dimGetUnsigned"),
-    D("varintDimensionPairEntrySetUnsigned", "H_dimSetUnsigned"),
-    D("varintDimensionPairEntrySetFloat", "H_dimSetFloat", note="matrix object limited to 2048 bytes (memcpy on a symbolic-size object exhausts CBMC); cell offset arithmetic is covered without that limit by the Get/SetUnsigned jobs, which share getEntryByteOffset"),
-    D("varintDimensionPairEntryGetFloat", "H_dimGetFloat", note="matrix object limited to 2048 bytes (memcpy on a symbolic-size object exhausts CBMC); cell offset arithmetic is covered without that limit by the Get/SetUnsigned jobs, which share getEntryByteOffset"),
-    D("varintDimensionPairEntrySetDouble", "H_dimSetDouble", note="matrix object limited to 2048 bytes (memcpy on a symbolic-size object exhausts CBMC); cell offset arithmetic is covered without that limit by the Get/SetUnsigned jobs, which share getEntryByteOffset"),
-    D("varintDimensionPairEntryGetDouble", "H_dimGetDouble", note="matrix object limited to 2048 bytes (memcpy on a symbolic-size object exhausts CBMC); cell offset arithmetic is covered without that limit by the Get/SetUnsigned jobs, which share getEntryByteOffset"),
+    D("getEntryByteOffset", "H_dimEntryOffset", timeout=3000),
+    D("varintDimensionPairEntryGetUnsigned", "H_dimGetUnsigned", replace=["getEntryByteOffset"]),
+    D("varintDimensionPairEntrySetUnsigned", "H_dimSetUnsigned", replace=["getEntryByteOffset"]),
+    D("varintDimensionPairEntrySetFloat", "H_dimSetFloat", replace=["getEntryByteOffset"], note="matrix object limited to 2048 bytes (memcpy on a symbolic-size object exhausts CBMC); cell offset arithmetic is covered without that limit by the Get/SetUnsigned jobs, which share getEntryByteOffset"),
+    D("varintDimensionPairEntryGetFloat", "H_dimGetFloat", replace=["getEntryByteOffset"], note="matrix object limited to 2048 bytes (memcpy on a symbolic-size object exhausts CBMC); cell offset arithmetic is covered without that limit by the Get/SetUnsigned jobs, which share getEntryByteOffset"),
+    D("varintDimensionPairEntrySetDouble", "H_dimSetDouble", replace=["getEntryByteOffset"], note="matrix object limited to 2048 bytes (memcpy on a symbolic-size object exhausts CBMC); cell offset arithmetic is covered without that limit by the Get/SetUnsigned jobs, which share getEntryByteOffset"),
+    D("varintDimensionPairEntryGetDouble", "H_dimGetDouble", replace=["getEntryByteOffset"], note="matrix object limited to 2048 bytes (memcpy on a symbolic-size object exhausts CBMC); cell offset arithmetic is covered without that limit by the Get/SetUnsigned jobs, which share getEntryByteOffset"),
     D("varintDimensionPairEntryGetBit", "H_dimGetBit"),
     D("varintDimensionPairEntrySetBit", "H_dimSetBit"),
     D("varintDimensionPairEntryToggleBit", "H_dimToggleBit"),
